@@ -6,12 +6,13 @@
 #   <name> <property> applied=<yes|no> exit=<rc> detected=<yes|no>
 # Exit 0 iff every change applies and is detected (exit 1 + VIOLATION line).
 set -u
+H="${VERIF_HOME:-/verif}"   # a snapshot of /verif may be used for long background runs
 wt=$(mktemp -d /tmp/recheck-wt.XXXXXX)
 rmdir "$wt"
 git -C /repo worktree add -q --detach "$wt" HEAD || exit 2
 trap 'git -C /repo worktree remove --force "$wt" >/dev/null 2>&1; rm -rf "$wt" /tmp/vp-mutant-evidence' EXIT INT TERM
 bad=0
-for d in /verif/seeded/*/; do
+for d in "$H"/seeded/*/; do
   name=$(basename "$d")
   if [ $# -gt 0 ]; then
     hit=0; for p in "$@"; do case "$name" in "$p"*) hit=1;; esac; done
@@ -22,7 +23,7 @@ for d in /verif/seeded/*/; do
   if ! git -C "$wt" apply "$d/patch.diff" 2>/dev/null && ! git -C "$wt" apply --3way "$d/patch.diff" 2>/dev/null; then
     echo "$name $prop applied=no exit=- detected=no"; bad=1; continue
   fi
-  out=$(cd /verif && VERIF_REPO="$wt" VERIF_EVIDENCE_DIR=/tmp/vp-mutant-evidence ./check "$prop" --tier quick 2>&1)
+  out=$(cd "$H" && VERIF_REPO="$wt" VERIF_EVIDENCE_DIR=/tmp/vp-mutant-evidence ./check "$prop" --tier quick 2>&1)
   rc=$?
   if [ $rc = 1 ] && echo "$out" | grep -q "^VIOLATION property=$prop"; then det=yes; else det=no; bad=1; fi
   echo "$name $prop applied=yes exit=$rc detected=$det $(echo "$out" | grep -m1 '^  invariant=' | cut -c1-60)"
